@@ -73,7 +73,24 @@ def case_two_files():
     return {'main': main, 'lib.m': lib}
 
 
-CASES = {'single': case_single, 'two-files': case_two_files}
+def case_same_text():
+    """equally spelled references that resolve (relative to the enclosing
+    package) to different objects; targets are given by qualified name"""
+    t = Text()
+    t.add('package p1 {\n class a;\n class b uses ').ref('a', 'p1.a').add(';\n}\npackage p2 {\n class a;\n class c uses ')
+    t.ref('a', 'p2.a').add(', ').ref('p1.a', 'p1.a').add(' base ').ref('a', 'p2.a').add(';\n}')
+    return {'main': t}
+
+
+CASES = {'single': case_single, 'two-files': case_two_files, 'same-text': case_same_text}
+
+
+def qualified(o):
+    parts = []
+    while hasattr(o, 'name'):
+        parts.insert(0, o.name)
+        o = getattr(o, 'parent', None)
+    return '.'.join(parts)
 
 
 def run(c, case, max_attempts):
@@ -136,11 +153,21 @@ def run(c, case, max_attempts):
             all_objs = []
             for mm_ in models.values():
                 all_objs += get_children(lambda x: hasattr(x, 'name'), mm_)
+            # the object each reference was actually linked to (classes in document
+            # order; per class the 'uses' list, then 'base'): the definition entry
+            # must describe that object — whether it is the intended one is C10's business
+            linked = []
+            for cl in sorted(get_children(lambda x: type(x).__name__ == 'Class', m), key=lambda x: x._tx_position):
+                linked += list(cl.uses) + ([cl.base] if cl.base is not None else [])
+            actual = {s: o for (s, e, txt, tg), o in zip(sorted(t.refs), linked)} if len(linked) == len(t.refs) else {}
             for r in lst:
                 tgt = next((tg for s, e, txt, tg in t.refs if s == r.ref_pos_start), None)
                 if tgt is None:
                     continue
-                o = next(x for x in all_objs if x.name == tgt and type(x).__name__ == 'Class')
+                o = actual.get(r.ref_pos_start)
+                if o is None:
+                    o = next(x for x in all_objs if type(x).__name__ == 'Class' and
+                             (qualified(x) == tgt if '.' in tgt else x.name == tgt))
                 from textx import get_model
                 want = (get_model(o)._tx_filename, o._tx_position, o._tx_position_end)
                 if (r.def_file_name, r.def_pos_start, r.def_pos_end) != want:
